@@ -22,6 +22,7 @@ type Job struct {
 	FSModel   bool // os.* forwarded to the harness file-system model; path.Join etc. as element-level contracts
 	Wasm      bool
 	RealParse bool     // byte-level: run the real Parser.Parse instead of its contract
+	RealScan  bool     // byte-level: run the real bufio.Scanner / strings.Reader instead of the line-splitting contract
 	MaxPaths  int      // 0 = unbounded
 	MaxSteps  int      // per-path step budget (unwinding bound); 0 = default
 	Expect    []string // assertion / reach ids that must be reached at least once (vacuity guard)
@@ -29,6 +30,7 @@ type Job struct {
 	Sched     string   // goroutine scheduling policy: "" fifo | lifo | fifo-lastsel
 	TimeoutMs int      // per-query solver timeout
 	Race      bool     // happens-before data-race detection on the interpreted goroutines (race.go)
+	RaceConfirm string // native-only entry run on a -race build to confirm race@ counterexamples (default VerifRaceStress)
 	Confirm   string   // native-only entry that amplifies schedule-dependent counterexamples (leaks, deadlocks) for confirmation
 }
 
@@ -42,6 +44,9 @@ func (j Job) String() string {
 	}
 	if j.RealParse {
 		s += " realparse"
+	}
+	if j.RealScan {
+		s += " realscan"
 	}
 	if j.Sched != "" {
 		s += " sched=" + j.Sched
@@ -241,7 +246,7 @@ func load(c *Check, wasm bool) (*loaded, error) {
 }
 
 var initAllow = []string{
-	"internal/oserror", "unicode/utf8", "strings", "iter", "path", "internal/filepathlite", "io/fs", "path/filepath", "context",
+	"internal/oserror", "io", "unicode/utf8", "strings", "bufio", "iter", "path", "internal/filepathlite", "io/fs", "path/filepath", "context",
 	modPath + "/markdown", modPath, modPath + "/zz_verif_wasm", modPath + "/cmd/gtree",
 }
 
@@ -254,6 +259,9 @@ func newEngine(ld *loaded, j *Job) *Engine {
 	for _, p := range initAllow {
 		if sp, ok := ld.pkgs[p]; ok {
 			if p == modPath+"/cmd/gtree" && j.Pkg != "main" {
+				continue
+			}
+			if (p == "io" || p == "bufio") && !j.RealScan {
 				continue
 			}
 			eng.initPkgs[p] = true
@@ -270,6 +278,11 @@ func newEngine(ld *loaded, j *Job) *Engine {
 	}
 	if j.RealParse {
 		delete(eng.intrinsics, "(*"+modPath+"/markdown.Parser).Parse")
+	}
+	if j.RealScan {
+		for _, n := range []string{"bufio.NewScanner", "(*bufio.Scanner).Scan", "(*bufio.Scanner).Text", "(*bufio.Scanner).Err", "strings.NewReader"} {
+			delete(eng.intrinsics, n)
+		}
 	}
 	if j.Pkg == "main" {
 		eng.registerCLIIntrinsics()
